@@ -6,6 +6,7 @@
 //   stride-th 32-bit pattern (stride 1 = exhaustive) of int32 | uint32 | float.
 // --mode bounds: boundary families of all types incl. file round trip, all
 //   case variants of the boolean words.
+#include <cerrno>
 #include <cinttypes>
 #include <cmath>
 #include <cstring>
@@ -311,6 +312,7 @@ static void run(Src &s) {
     bool subn = false;
     for (int i = 0; i < n; i++) {
       uint64_t b = s.raw64();
+      if (s.chance(50)) errno = s.chance(50) ? ERANGE : ENOENT;  // whatever an earlier call left behind must not matter
       // spread exponents: sometimes clear high bits
       size_t sh = s.below(8);
       if (sh == 1) b >>= s.below(63);
